@@ -15,12 +15,14 @@ Inductive laction :=
 | LPush (streams : list lstream) (ts_ok spl_ok : bool)
 | LPushBad (streams : list lstream)
 | LBegin (streams : list lstream)
+| LMore (k : nat) (streams : list lstream)
+| LFlush (k : nat) (ts_ok spl_ok : bool)
 | LEnd (k : nat) (ts_ok spl_ok : bool)
 | LAbort (k : nat)
 | LReset.
 
 Definition lstreams_of (a : laction) : list lstream :=
-  match a with LPush ss _ _ | LPushBad ss | LBegin ss => ss | _ => [] end.
+  match a with LPush ss _ _ | LPushBad ss | LBegin ss | LMore _ ss => ss | _ => [] end.
 Definition lstreams (h : list laction) : list lstream := flat_map lstreams_of h.
 
 Section FP.
@@ -31,6 +33,8 @@ Section FP.
     | LPush ss a b => Push (map to_stream ss) a b
     | LPushBad ss => PushBad (map to_stream ss)
     | LBegin ss => Begin (map to_stream ss)
+    | LMore k ss => More k (map to_stream ss)
+    | LFlush k a b => Flush k a b
     | LEnd k a b => End k a b
     | LAbort k => Abort k
     | LReset => CacheReset
